@@ -4,6 +4,8 @@ package tls
 
 import (
 	"bytes"
+	"io"
+	"net"
 	"time"
 
 	"golang.org/x/crypto/cryptobyte"
@@ -208,4 +210,90 @@ func VerifC31WithTicket(s *ClientSessionState, ticket []byte) *ClientSessionStat
 	c := *s
 	c.sessionTicket = append([]byte{}, ticket...)
 	return &c
+}
+
+// ---- TLS 1.3 resumption decision ----
+
+type verifC31NullConn struct{}
+
+func (verifC31NullConn) Read(p []byte) (int, error)       { return 0, io.EOF }
+func (verifC31NullConn) Write(p []byte) (int, error)      { return len(p), nil }
+func (verifC31NullConn) Close() error                     { return nil }
+func (verifC31NullConn) LocalAddr() net.Addr              { return nil }
+func (verifC31NullConn) RemoteAddr() net.Addr             { return nil }
+func (verifC31NullConn) SetDeadline(time.Time) error      { return nil }
+func (verifC31NullConn) SetReadDeadline(time.Time) error  { return nil }
+func (verifC31NullConn) SetWriteDeadline(time.Time) error { return nil }
+
+// VerifC31Check13In describes a TLS 1.3 server connection at the point where the handshake
+// calls checkForResumption, and the pre_shared_key extension of the ClientHello.
+type VerifC31Check13In struct {
+	Keys            []VerifC31Key
+	TicketsDisabled bool
+	Now             int64
+	ClientAuth      ClientAuthType
+	SuiteID         uint16   // the suite negotiated by processClientHello
+	ModeDHE         bool     // psk_key_exchange_modes contains psk_dhe_ke
+	Identities      [][]byte // PSK identity labels (tickets)
+	Secrets         [][]byte // per binder: the resumption secret the client computes the binder from
+	Corrupt         []bool   // per binder: flip a bit of the binder after computing it
+}
+
+type VerifC31Check13Out struct {
+	Err      bool
+	UsingPSK bool
+	Selected int
+	Panicked bool
+}
+
+// VerifC31Check13 builds the ClientHello, computes the binders exactly as the client does
+// (handshake_client.go loadSession) and runs serverHandshakeStateTLS13.checkForResumption.
+func VerifC31Check13(in VerifC31Check13In) (out VerifC31Check13Out) {
+	defer func() {
+		if recover() != nil {
+			out = VerifC31Check13Out{Panicked: true}
+		}
+	}()
+	suite := cipherSuiteTLS13ByID(in.SuiteID)
+	hello := &clientHelloMsg{vers: VersionTLS12, random: make([]byte, 32), sessionId: make([]byte, 32),
+		cipherSuites: []uint16{in.SuiteID}, compressionMethods: []uint8{compressionNone},
+		supportedVersions: []uint16{VersionTLS13}}
+	if in.ModeDHE {
+		hello.pskModes = []uint8{pskModeDHE}
+	} else {
+		hello.pskModes = []uint8{pskModePlain}
+	}
+	for _, id := range in.Identities {
+		hello.pskIdentities = append(hello.pskIdentities, pskIdentity{label: id})
+	}
+	for range in.Secrets {
+		hello.pskBinders = append(hello.pskBinders, make([]byte, suite.hash.Size()))
+	}
+	if len(hello.pskIdentities) > 0 || len(hello.pskBinders) > 0 {
+		binders := make([][]byte, len(in.Secrets))
+		for i, secret := range in.Secrets {
+			psk := suite.expandLabel(secret, "resumption", nil, suite.hash.Size())
+			earlySecret := suite.extract(psk, nil)
+			binderKey := suite.deriveSecret(earlySecret, resumptionBinderLabel, nil)
+			transcript := suite.hash.New()
+			transcript.Write(hello.marshalWithoutBinders())
+			binders[i] = suite.finishedHash(binderKey, transcript)
+			if i < len(in.Corrupt) && in.Corrupt[i] {
+				binders[i][0] ^= 1
+			}
+		}
+		hello.pskBinders = binders
+		hello.raw = nil
+	}
+	cfg := &Config{SessionTicketsDisabled: in.TicketsDisabled, ClientAuth: in.ClientAuth,
+		Time: func() time.Time { return time.Unix(in.Now, 0) }}
+	c := &Conn{conn: verifC31NullConn{}, config: cfg, vers: VersionTLS13, ticketKeys: verifC31Keys(in.Keys)}
+	hs := &serverHandshakeStateTLS13{c: c, clientHello: hello, hello: new(serverHelloMsg), suite: suite, transcript: suite.hash.New()}
+	err := hs.checkForResumption()
+	out.Err = err != nil
+	out.UsingPSK = hs.usingPSK
+	if hs.usingPSK {
+		out.Selected = int(hs.hello.selectedIdentity)
+	}
+	return out
 }
